@@ -152,6 +152,38 @@ def _rename_param_overrides():
     return ov
 
 
+def _flip_overrides():
+    """Every plain if/else (the else is not an elif chain) with its branches swapped and its test negated."""
+    import ast
+    from ..model import REPO
+
+    class Flip(ast.NodeTransformer):
+        def visit_If(self, n):
+            self.generic_visit(n)
+            if n.orelse and not (len(n.orelse) == 1 and isinstance(n.orelse[0], ast.If)) \
+                    and not any(isinstance(x, ast.NamedExpr) for x in ast.walk(n.test)):
+                t = n.test.operand if isinstance(n.test, ast.UnaryOp) and isinstance(n.test.op, ast.Not) \
+                    else ast.UnaryOp(op=ast.Not(), operand=n.test)
+                return ast.If(test=t, body=n.orelse, orelse=n.body)
+            return n
+    ov = {}
+    for root, _, files in os.walk(os.path.join(REPO, "openpectus")):
+        if os.sep + "test" in root:
+            continue
+        for f in files:
+            if f.endswith(".py"):
+                p = os.path.join(root, f)
+                try:
+                    t = Flip().visit(ast.parse(open(p, encoding="utf-8").read()))
+                    ast.fix_missing_locations(t)
+                    new = ast.unparse(t)
+                    compile(new, p, "exec")
+                    ov[os.path.relpath(p, REPO)] = new
+                except (SyntaxError, OSError):
+                    pass
+    return ov
+
+
 def _run_variant(args):
     prop, variant = args
     from ..model import Program, AnchorError, REPO
@@ -169,6 +201,11 @@ def _run_variant(args):
             except AnchorError as ex:
                 return "anchor: " + str(ex)[:150]
             return {(fd.rule, fd.function, fd.construct) for fd in ctx.findings}
+        if variant["roundtrip"] == "flip":
+            a, b = fnd({}), fnd(_flip_overrides())
+            if a == b:
+                return variant["id"], "silent", ""
+            return variant["id"], "false-alarm", f"findings differ after swapping the branches of every if/else: {str(a)[:90]} vs {str(b)[:140]}"
         if variant["roundtrip"] == "params":
             a, b = fnd({}), fnd(_rename_param_overrides())
             if isinstance(a, set) and isinstance(b, set):
@@ -251,6 +288,8 @@ def run_audit(props: list[str] | None = None, jobs: int = 16) -> dict:
                                   replace="", why="every assigned local variable of every function alpha-renamed")))
             todo.append((pr, dict(id=f"{pr}-rename-params", prop=pr, kind="equivalent", roundtrip="params", expect="", file="", find="",
                                   replace="", why="every parameter that is never passed by keyword renamed")))
+            todo.append((pr, dict(id=f"{pr}-flip-branches", prop=pr, kind="equivalent", roundtrip="flip", expect="", file="", find="",
+                                  replace="", why="every plain if/else with swapped branches and negated test")))
     t0 = time.time()
     results = []
     if todo:
